@@ -892,6 +892,7 @@ func evalFunctionCall(node *jparse.FunctionCallNode, data reflect.Value, env *en
 	if setter, ok := fn.(contextSetter); ok {
 		setter.SetContext(data)
 	}
+	verifYield("call.ctxset", "")
 
 	argv := make([]reflect.Value, len(node.Args))
 	for i, arg := range node.Args {
